@@ -317,7 +317,7 @@ func (fr *Frame) loopHead(li *loopInfo, b *ssa.BasicBlock, phis []*ssa.Phi, pred
 	}
 	var nst *State
 	if ms.All {
-		nst = st.havocAll(nil)
+		nst = st.havocAll(fc.ghostKeep(ms))
 	} else {
 		set := map[string]bool{}
 		for n := range ms.Names {
@@ -385,7 +385,7 @@ func (fr *Frame) specEnv(st *State, at *ssa.BasicBlock, phiOver map[*ssa.Phi]Val
 	for k, v := range fr.params {
 		env.names[k] = v
 	}
-	env.lookup = func(name string) (Val, bool) {
+	env.lookup = func(name string, st *State) (Val, bool) {
 		return fr.lookupLocal(name, st, at, phiOver)
 	}
 	env.localsFirst = at != nil
@@ -393,7 +393,19 @@ func (fr *Frame) specEnv(st *State, at *ssa.BasicBlock, phiOver map[*ssa.Phi]Val
 }
 
 // lookupLocal resolves a source-level local variable name at the head of block at.
+func (fr *Frame) lookupFreeVar(name string, st *State) (Val, bool) {
+	for i, fv := range fr.fn.FreeVars {
+		if fv.Name() == name && i < len(fr.bindAddr) && fr.bindAddr[i] != nil {
+			return fr.fc.load(st, fr.bindAddr[i], pointee(fv.Type())), true
+		}
+	}
+	return Val{}, false
+}
+
 func (fr *Frame) lookupLocal(name string, st *State, at *ssa.BasicBlock, phiOver map[*ssa.Phi]Val) (Val, bool) {
+	if v, ok := fr.lookupFreeVar(name, st); ok {
+		return v, true
+	}
 	if at == nil {
 		return Val{}, false
 	}
@@ -1334,6 +1346,9 @@ func guardTags(fc *FnCtx) []string {
 // over the whole function (single definition) or that live in a memory cell are available.
 func (fr *Frame) lookupExitLocal(name string, st *State) (Val, bool) {
 	fc := fr.fc
+	if v, ok := fr.lookupFreeVar(name, st); ok {
+		return v, true
+	}
 	for _, b := range fr.fn.Blocks {
 		for _, in := range b.Instrs {
 			if a, ok := in.(*ssa.Alloc); ok && a.Comment == name {
